@@ -758,3 +758,115 @@ pub fn adversarial_packets(r: &mut Rng, scale: usize) -> Vec<Vec<u8>> {
     }
     out
 }
+
+/// C06: pointer-free packets that stress the suffix dictionary (nesting deeper than 16, more than
+/// 32 distinct suffixes, suffixes longer than 127 bytes, names beyond offset 16383, mixed case).
+pub fn compress_families() -> Vec<Vec<u8>> {
+    let mut out = vec![];
+    let lab = |i: usize| -> Vec<u8> { vec![2, b'a' + (i % 26) as u8, b'a' + ((i / 26) % 26) as u8] };
+    // nested suffixes: name k = label_k . name_{k-1}
+    for d in [1usize, 2, 3, 8, 15, 16, 17, 18, 24, 40] {
+        let mut p = header(20, 0x8000, 1, d as u16, 0, 0);
+        question(&mut p, &[1, b'n', 0], 1);
+        let mut cur: Vec<u8> = vec![1, b'n', 0];
+        for k in 0..d {
+            let mut nm = lab(k);
+            nm.extend(&cur);
+            cur = nm;
+            rr(&mut p, &cur, 1, 1, &[1, 1, 1, 1]);
+        }
+        out.push(p);
+        // the same, each name twice (every second one can be a whole-name pointer)
+        let mut p = header(20, 0x8000, 1, (2 * d) as u16, 0, 0);
+        question(&mut p, &[1, b'n', 0], 1);
+        let mut cur: Vec<u8> = vec![1, b'n', 0];
+        for k in 0..d {
+            let mut nm = lab(k);
+            nm.extend(&cur);
+            cur = nm;
+            rr(&mut p, &cur, 1, 1, &[1, 1, 1, 1]);
+            rr(&mut p, &cur, 2, 1, &cur);
+        }
+        out.push(p);
+    }
+    // many distinct suffixes, then reuse of early and late ones
+    for n in [30usize, 31, 32, 33, 34, 40, 70] {
+        let mut p = header(21, 0x8000, 1, (n + 4) as u16, 0, 0);
+        question(&mut p, &[3, b'q', b'q', b'q', 0], 1);
+        let nm = |i: usize| -> Vec<u8> {
+            let mut v = lab(i);
+            v.extend(&[3, b't', b'l', b'd', 0]);
+            v
+        };
+        for i in 0..n {
+            rr(&mut p, &nm(i), 1, 1, &[1, 1, 1, 1]);
+        }
+        for i in [0usize, 1, n - 1, n / 2] {
+            rr(&mut p, &nm(i), 5, 1, &nm(i));
+        }
+        out.push(p);
+    }
+    // long suffixes: 125..130 bytes, used twice
+    for l in 120..=132usize {
+        let mut nm = vec![];
+        let mut left = l - 1;
+        while left > 0 {
+            let ll = (left - 1).min(40);
+            nm.push(ll as u8);
+            nm.extend(vec![b'l'; ll]);
+            left -= ll + 1;
+        }
+        nm.push(0);
+        let mut p = header(22, 0x8000, 1, 2, 0, 0);
+        question(&mut p, &[1, b'q', 0], 1);
+        let mut n2 = vec![1, b'x'];
+        n2.extend(&nm);
+        rr(&mut p, &nm, 1, 1, &[1, 1, 1, 1]);
+        rr(&mut p, &n2, 1, 1, &[1, 1, 1, 1]);
+        out.push(p);
+    }
+    // names beyond offset 16383: a big opaque record first, then repeated names
+    for pad in [16300usize, 16350, 16370, 16380, 16400, 30000] {
+        let mut p = header(23, 0x8000, 1, 5, 0, 0);
+        question(&mut p, &[1, b'q', 0], 1);
+        rr(&mut p, &[1, b'q', 0], 16, 1, &vec![b'p'; pad]);
+        for _ in 0..2 {
+            rr(&mut p, &[4, b'l', b'a', b't', b'e', 3, b'o', b'r', b'g', 0], 1, 1, &[1, 1, 1, 1]);
+            rr(&mut p, &[3, b'w', b'w', b'w', 4, b'l', b'a', b't', b'e', 3, b'o', b'r', b'g', 0], 1, 1, &[1, 1, 1, 1]);
+        }
+        out.push(p);
+    }
+    // mixed-case duplicates, in owners and in data of each name-bearing type
+    for ty in [2u16, 5, 12, 15, 6] {
+        let lower = [3u8, b'w', b'w', b'w', 7, b'e', b'x', b'a', b'm', b'p', b'l', b'e', 3, b'c', b'o', b'm', 0];
+        let upper = [3u8, b'W', b'w', b'W', 7, b'E', b'X', b'a', b'm', b'P', b'l', b'e', 3, b'C', b'O', b'M', 0];
+        let mut rd = vec![];
+        if ty == 15 {
+            rd.extend(&[0, 7]);
+        }
+        rd.extend(&upper[4..]);
+        if ty == 6 {
+            rd.extend(&lower);
+            rd.extend(&[9u8; 20]);
+        }
+        for opt_pos in 0..3usize {
+            let mut p = header(24, 0x8000, 1, 2, 1, 2);
+            question(&mut p, &upper, ty);
+            rr(&mut p, &lower, ty, 1, &rd);
+            rr(&mut p, &upper, ty, 2, &rd);
+            rr(&mut p, &lower[4..], ty, 3, &rd);
+            for k in 0..2 {
+                if k == opt_pos {
+                    rr(&mut p, &[0], 41, 0x0000_8000, &[0, 12, 0, 2, 0, 0]);
+                } else {
+                    rr(&mut p, &upper[4..], 1, 4, &[4, 4, 4, 4]);
+                }
+            }
+            if opt_pos == 2 {
+                // no OPT: fix nothing, both additional records are A records
+            }
+            out.push(p);
+        }
+    }
+    out
+}
